@@ -560,26 +560,72 @@ Definition find_exec (f : fnid) (e : nat) (obs : list oobs) : option event :=
   find (fun ev => match ev with EExec f' e' _ _ _ => Nat.eqb f f' && Nat.eqb e e' | _ => false end)
        (flat_map oo_events obs).
 
-(* codes: 1601 verdict class differs   1602 an execution of the reference run
-   is missing or received different arguments in the permuted run *)
-Definition chk_C16 (perm : list nat) (obsA obsB : list oobs) : list viol :=
+(* codes: 1601 a registration's verdict class differs, or an Invoke succeeds
+   in one run and fails in the other   1602 an execution of a successful
+   Invoke of the reference run is missing or received different arguments in
+   the permuted run (soft value groups aside)   1603 length differs
+   1604 only a SOFT value group differs, and an earlier Invoke had failed
+        (what a failed Invoke happened to execute before failing depends on the
+        order of group providers, and soft groups observe it)
+   1605 a soft value group differs although no earlier Invoke failed.
+   (Invokes that fail in both runs may fail for different reasons: which of
+   several failing dependencies is reached first depends on the order of
+   group providers, and the property claims nothing about them.) *)
+Definition sig_of_fn (h : history) (f : fnid) : option fsig :=
+  find_map (fun o => match o with
+                     | OProvide _ p => if Nat.eqb (pi_fn p) f then Some (pi_sig p) else None
+                     | ODecorate _ p => if Nat.eqb (di_fn p) f then Some (di_sig p) else None
+                     | OInvoke _ p => if Nat.eqb (ii_fn p) f then Some (ii_sig p) else None
+                     | _ => None
+                     end) h.
+
+Fixpoint mask_soft (ls : list pleaf) (args : list arg) : list arg :=
+  match ls, args with
+  | LGroup _ true :: ls', _ :: args' => ASlice [] :: mask_soft ls' args'
+  | _ :: ls', a :: args' => a :: mask_soft ls' args'
+  | _, _ => args
+  end.
+
+Definition mask_event (h : history) (ev : event) : event :=
+  match ev with
+  | EExec f e r args o =>
+      match sig_of_fn h f with
+      | Some sg => EExec f e r (mask_soft (sig_leaves sg) args) o
+      | None => ev
+      end
+  | _ => ev
+  end.
+
+Definition chk_C16 (h : history) (perm : list nat) (obsA obsB : list oobs) : list viol :=
   (* perm[i] = index in B of operation i of A *)
   flat_map (fun p =>
               let i := fst p in
-              match nth_error obsB (snd p), nth_error obsA i with
-              | Some y, Some x =>
-                  (if Nat.eqb (vclass (oo_verdict x)) (vclass (oo_verdict y)) then [] else [(i, 1601)]) ++
+              match nth_error obsB (snd p), nth_error obsA i, nth_error h i with
+              | Some y, Some x, Some o =>
+                  (match o with
+                   | OInvoke _ _ => if Bool.eqb (accepted x) (accepted y) then [] else [(i, 1601)]
+                   | _ => if Nat.eqb (vclass (oo_verdict x)) (vclass (oo_verdict y)) then [] else [(i, 1601)]
+                   end) ++
                   (if accepted x then
+                     let failed_before :=
+                         existsb (fun q => match fst q with
+                                           | OInvoke _ _ => negb (accepted (snd q))
+                                           | _ => false
+                                           end) (firstn i (combine h obsA)) in
                      flat_map (fun ev => match ev with
                                          | EExec f e _ _ _ =>
                                              match find_exec f e obsB with
-                                             | Some ev' => if event_eqb ev ev' then [] else [(i, 1602)]
+                                             | Some ev' =>
+                                                 if event_eqb ev ev' then []
+                                                 else if event_eqb (mask_event h ev) (mask_event h ev')
+                                                      then [(i, if failed_before then 1604 else 1605)]
+                                                      else [(i, 1602)]
                                              | None => [(i, 1602)]
                                              end
                                          | _ => []
                                          end) (oo_events x)
                    else [])
-              | _, _ => [(i, 1603)]
+              | _, _, _ => [(i, 1603)]
               end) (combine (seq 0 (length perm)) perm).
 
 (* =====================================================================
